@@ -33,6 +33,10 @@ def main():
     for mid in ids:
         d = os.path.join(SEEDED, mid)
         meta = json.load(open(os.path.join(d, 'meta.json')))
+        if meta.get('neutralised_by'):
+            print('%s: skipped, neutralised by fix %s' % (mid, meta['neutralised_by']))
+            results[mid] = {'breaks': meta.get('breaks'), 'neutralised_by': meta['neutralised_by'], 'checks': {}, 'caught_by': []}
+            continue
         props = claimed if all_checks else [p for p in meta.get('expected_detection', {}) or meta.get('breaks', []) if p in claimed]
         scratch = '/tmp/mut_%s_%d' % (mid, os.getpid())
         sh('git -C /repo worktree add --detach %s HEAD' % scratch)
